@@ -49,6 +49,7 @@ def _timedelta(I, args, kw):
 TABLE = {
     ("numpy", "asarray"): _np_asarray,
     ("datetime", "timedelta"): _timedelta,
+    ("datetime", "now"): _nondet_real("datetime.now"),
     ("math", "sqrt"): _sqrt,
     ("math", "isfinite"): _isfinite,
     ("math", "isnan"): _isnan,
@@ -68,6 +69,9 @@ def external_member(ver, modname, attr):
     key = (modname.split(".")[0] if modname else "", attr)
     if key in TABLE:
         return VFunc("builtin", "%s.%s" % key, impl=TABLE[key])
+    if key in (("datetime", "datetime"), ("datetime", "timezone")):
+        # class used as a namespace only: datetime.datetime.now(tz) / datetime.timezone.utc
+        return VModule("datetime." + attr, None)
     if key[0] == "collections" and attr == "OrderedDict":
         return VClass("OrderedDict")
     if key[0] in ("typing", "typing_extensions", "__future__", "dataclasses", "abc"):
